@@ -327,6 +327,89 @@ func c12SigV1Line(cs consensus.State, t types.Transaction) string {
 	return "ok " + c12Join(outs, ",")
 }
 
+// ---------------------------------------------------------------- replay eras (statement-level, on the real functions)
+
+var c12Eras = []string{"pre-asic", "asic", "foundation", "v2"}
+
+// c12EraStates: four parent states of one height, one in each replay era (the hardfork heights are
+// placed around the height), on otherwise identical networks.
+func c12EraStates(h uint64) []consensus.State {
+	mk := func(asic, foundation, v2 uint64) consensus.State {
+		n := &consensus.Network{}
+		n.HardforkASIC.Height, n.HardforkFoundation.Height, n.HardforkV2.AllowHeight = asic, foundation, v2
+		cs := consensus.State{Network: n}
+		cs.Index.Height = h
+		return cs
+	}
+	return []consensus.State{mk(h+1, h+2, h+3), mk(h, h+1, h+2), mk(h-1, h, h+1), mk(h-2, h-1, h)}
+}
+
+// eraOracle: "signature hashes additionally bind the hardfork replay prefix of their era ... so a
+// signature cannot be replayed across eras": the whole / partial sighash of every signature that
+// covers at least one siacoin or siafund input (the prefix is written next to each input) must be
+// different in every pair of eras. Ids must not depend on the era; v2 sighashes have a single era.
+func (x *c12Ctx) eraOracle(t types.Transaction, origin string) {
+	res := x.c.Res
+	states := c12EraStates(10 + uint64(x.rng.Intn(1000)))
+	for k, sig := range t.Signatures {
+		covers := len(t.SiacoinInputs)+len(t.SiafundInputs) > 0
+		if !sig.CoveredFields.WholeTransaction {
+			covers = len(sig.CoveredFields.SiacoinInputs)+len(sig.CoveredFields.SiafundInputs) > 0
+		}
+		var hs [4]types.Hash256
+		ok := true
+		for e, cs := range states {
+			panicked, _ := fw.Recover(func() {
+				if sig.CoveredFields.WholeTransaction {
+					hs[e] = cs.WholeSigHash(t, sig.ParentID, sig.PublicKeyIndex, sig.Timelock, sig.CoveredFields.Signatures)
+				} else {
+					hs[e] = cs.PartialSigHash(t, sig.CoveredFields)
+				}
+			})
+			ok = ok && !panicked
+		}
+		if !ok {
+			res.Count("era-oracle:sighash-panics")
+			continue
+		}
+		if !covers {
+			res.Count("era-oracle:no-input-covered")
+			continue
+		}
+		res.Eval(fmt.Sprintf("era/%s/%d", origin, k), true)
+		if sig.CoveredFields.WholeTransaction {
+			res.Count("era-oracle:checked-whole")
+		} else {
+			res.Count("era-oracle:checked-partial")
+		}
+		for a := 0; a < 4; a++ {
+			for b := a + 1; b < 4; b++ {
+				if hs[a] == hs[b] {
+					res.Violate(fw.Violation{Key: "c12-sighash-era-collision:" + c12Eras[a] + "-" + c12Eras[b],
+						What:     "a v1 signature hash covering an input is the same in the " + c12Eras[a] + " and the " + c12Eras[b] + " replay era: a signature can be replayed across the hardfork",
+						Replay:   map[string]any{"origin": origin, "txn": fw.Hex(chain.Encode(t)), "signature": k, "whole": sig.CoveredFields.WholeTransaction, "height": states[0].Index.Height, "sighash": c12H(hs[a])},
+						Expected: "different signature hashes", Observed: "equal: " + c12H(hs[a])})
+				}
+			}
+		}
+	}
+}
+
+// eraOracleV2: v2 sighashes carry the single v2 replay prefix: they must not depend on the v1 era of
+// the state (recorded), and ids never depend on a state at all.
+func (x *c12Ctx) eraOracleV2(t types.V2Transaction, origin string) {
+	res := x.c.Res
+	states := c12EraStates(10 + uint64(x.rng.Intn(1000)))
+	h0 := states[0].InputSigHash(t)
+	for e := 1; e < 4; e++ {
+		if states[e].InputSigHash(t) != h0 {
+			res.Count("era-oracle:v2-input-sighash-depends-on-v1-era")
+			res.Violate(fw.Violation{Key: "c12-v2-sighash-depends-on-v1-era", What: "InputSigHash differs between states that differ only in the v1 replay era", Replay: map[string]any{"origin": origin, "txn": fw.Hex(chain.Encode(t))}})
+		}
+	}
+	res.Count("era-oracle:v2-single-era-checked")
+}
+
 // ---------------------------------------------------------------- the sweep
 
 type c12Ctx struct {
@@ -349,10 +432,12 @@ func (x *c12Ctx) op(line, want string) {
 }
 
 func (x *c12Ctx) compareV2(cs consensus.State, t types.V2Transaction) {
+	x.eraOracleV2(t, "txn")
 	x.op("ids-v2 "+c12Hex(chain.Encode(t)), c12V2Line(cs, t))
 }
 
 func (x *c12Ctx) compareV1(cs consensus.State, t types.Transaction) {
+	x.eraOracle(t, "txn")
 	enc := c12Hex(chain.Encode(t))
 	x.op("ids-v1 "+enc, c12V1Line(t))
 	if len(t.Signatures) > 0 {
@@ -969,13 +1054,22 @@ func c12Replay(x *c12Ctx) {
 			Mutant string `json:"mutant"`
 		} `json:"replay"`
 	}
-	if json.Unmarshal(raw, &st) == nil && st.Replay.Txn != "" && st.Replay.Mutant != "" {
+	if json.Unmarshal(raw, &st) == nil && st.Replay.Txn != "" && (st.Replay.Mutant != "" || strings.HasPrefix(st.Key, "c12-sighash-era-collision")) {
 		tb, e1 := hex.DecodeString(st.Replay.Txn)
 		mb, e2 := hex.DecodeString(st.Replay.Mutant)
 		path := strings.SplitN(st.Replay.Field, "#", 2)[0]
 		if e1 == nil && e2 == nil {
 			rp := map[string]any{"field": st.Replay.Field, "txn": st.Replay.Txn, "mutant": st.Replay.Mutant}
 			res.Eval("replay/"+st.Replay.Field, true)
+			if strings.HasPrefix(st.Key, "c12-sighash-era-collision") {
+				var t types.Transaction
+				d1 := types.NewBufDecoder(tb)
+				t.DecodeFrom(d1)
+				if d1.Err() == nil {
+					x.eraOracle(t, "replay")
+					return
+				}
+			}
 			if strings.Contains(st.Key, ":v1.") {
 				var t, m types.Transaction
 				d1, d2 := types.NewBufDecoder(tb), types.NewBufDecoder(mb)
